@@ -16,6 +16,10 @@ def showBytes (r : Option Bytes) : String :=
   | some b => "ok " ++ hexTok b
   | none => "none"
 
+def showLocal (f : Fields) : String :=
+  toString (epochOf f) ++ " " ++ toString (offsetSeconds f) ++ " " ++ toString f.year ++ " " ++ toString f.month ++ " "
+    ++ toString f.day ++ " " ++ toString f.hour ++ " " ++ toString f.minute ++ " " ++ toString f.second
+
 /-- protocol operations of property C18 -/
 def handle (op : String) (args : List String) : Option String :=
   match op with
@@ -30,7 +34,7 @@ def handle (op : String) (args : List String) : Option String :=
         | "jiff_zoned" => showBytes (jiffZonedString specLib f)
         | "jiff_ts" => showBytes (jiffTimestampString specLib f)
         | "time_odt" => showBytes (timeOdtString specLib f)
-        | "time_time" => showBytes (timeTimeString specLib f)
+        | "time_time" => showBytes (timeTimeString specLib f f.hour f.minute f.second)
         | _ => "bad-op"
       | none => "bad-op"
     | [] => "bad-op"
@@ -52,6 +56,15 @@ def handle (op : String) (args : List String) : Option String :=
         | some s =>
           match which with
           | "chrono" => match chronoParse specLib s with | some f => "ok " ++ toString (epochOf f) | none => "err"
+          | "chrono_utc0" =>                 -- the DateTime<Local> under TZ=UTC: instant, offset, civil fields
+            match chronoTryFrom specLib 0 s with
+            | some f => "ok " ++ showLocal f | none => "err"
+          | "chrono_p0530" =>                -- … under a zone at +05:30
+            match chronoTryFrom specLib 19800 s with
+            | some f => "ok " ++ showLocal f | none => "err"
+          | "chrono_m0800" =>
+            match chronoTryFrom specLib (-28800) s with
+            | some f => "ok " ++ showLocal f | none => "err"
           | "jiff" => match jiffParse specLib s with
             | some f => "ok " ++ toString (epochOf f) ++ " " ++ toString (offsetSeconds f) | none => "err"
           | "time" => match timeParse specLib s with
